@@ -164,7 +164,7 @@ package main
 // processAttack: every result received from the attack is observed (if metrics are on) and written
 // exactly once, in the order received, until the channel is closed, a write fails or a second signal.
 //@ func processAttack
-//@   property C02
+//@   property C02 C20
 //@   pragma frame off
 //@   pragma concurrent yes
 //@   shared done, closed
@@ -175,13 +175,16 @@ package main
 //@   requires [metrics-constructed-if-any] pm != nil ==> wfMetrics(pm)
 //@   ghost got int = 0
 //@   ghost written int = 0
+//@   ghost observed int = 0
 //@   at recv res: ghost got = got + 1
+//@   at call Observe: assert [observes-the-result-just-received] arg1 == r && ok && observed == written ; ghost observed = observed + 1
 //@   before call Observe: assume [the-attack-sends-only-non-nil-results] arg1 != nil
 //@   before call Encode: assume [the-attack-sends-only-non-nil-results] arg1 != nil
-//@   at call Encode: assert [writes-the-result-just-received] arg1 == r && ok && written + 1 == got ; ghost written = written + 1
+//@   at call Encode: assert [writes-the-result-just-received] arg1 == r && ok && written + 1 == got ;
+//@        assert [every-written-result-was-observed-first-when-metrics-are-on] pm != nil ==> observed == written + 1 ; ghost written = written + 1
 //@   ensures [every-received-result-written-once] err == nil ==> written == got || written + 1 == got
 //@   loop 1
-//@     invariant written == got && atk == old(atk) && atk != nil && atk.stopch == old(atk.stopch) && enc == old(enc) && enc != nil && pm == old(pm)
+//@     invariant written == got && (pm != nil ==> observed == written) && atk == old(atk) && atk != nil && atk.stopch == old(atk.stopch) && enc == old(enc) && enc != nil && pm == old(pm)
 //@     invariant (closed(atk.stopch) <==> done(&atk.stopOnce)) && (pm != nil ==> wfMetrics(pm))
 
 // ---------------------------------------------------------------------------------- C17
